@@ -2,7 +2,8 @@
 CONSTANTS
   Inputs = {}
   MaxExpA = 2
-  MaxExpC = 1
+  MaxExpC1 = 1
+  MaxExpC2 = 1
   LevelIdx = {1, 2, 3}
   SizeIdx = {1, 2, 3, 4}
   Owners = {"o1", "o2"}
